@@ -124,9 +124,14 @@ type vC08Rig struct {
 func (g *vC08Rig) off(s uint64) int { return int(int64(s - g.base)) }
 
 // snapshot reads the real state (sequences as offsets from initialSequence).
-func (g *vC08Rig) snapshot(o vObj) vObj {
+func (g *vC08Rig) snapshot(o vObj) vObj { return g.snapshotL(o, true) }
+
+// snapshotL with lock=false is for callers that already are inside the changeCache critical section (hook sink).
+func (g *vC08Rig) snapshotL(o vObj, lock bool) vObj {
 	c := g.c
-	c.lock.Lock()
+	if lock {
+		c.lock.Lock()
+	}
 	o["next"] = g.off(c.nextSequence)
 	pend := []vObj{}
 	for _, e := range c.pendingLogs {
@@ -160,7 +165,9 @@ func (g *vC08Rig) snapshot(o vObj) vObj {
 	o["nsk"] = int(c.skippedSeqs.getStats().NumCurrentSkippedSequencesStat)
 	o["stable"] = int(int64(c._getMaxStableCached(g.ctx) - g.base))
 	o["hcs"] = int(int64(c.channelCache.GetHighCacheSequence() - g.base))
-	c.lock.Unlock()
+	if lock {
+		c.lock.Unlock()
+	}
 	_, entries := g.star.GetCachedChanges(ChangesOptions{Since: SequenceID{Seq: 0}})
 	star := []int{}
 	for _, e := range entries {
@@ -364,13 +371,41 @@ func TestVerif_C08_ChangeCache(t *testing.T) {
 	}
 }
 
-// vC08Concurrent delivers the steps of b (arrivals only) from b.G goroutines; the order in which the cache forwards
-// entries is the order the recorder saw them under changeCache.lock.  One "Conc" line with the final real state.
+// vC08Concurrent delivers the steps of b (arrivals only) from b.G goroutines.
+// With hook H2 in the tree (base.VerifEmit at the end of processEntry / processUnusedRange, under changeCache.lock) the
+// in-process sink is called inside every critical section: it writes one trace line per call, in linearization order,
+// with the real state of that instant - the concurrent run is validated step by step like a sequential one.
+// Without the hook no event arrives and one "Conc" line with the final real state is written instead (the order in which
+// the cache forwarded entries is then still the order the recorder saw them under changeCache.lock).
 func vC08Concurrent(g *vC08Rig, b vC08Beh, tw *vTraceWriter) {
 	n := b.G
 	if n < 2 {
 		n = 2
 	}
+	obj := verifObj(g.c)
+	steps := 0
+	u := func(x any) uint64 {
+		switch v := x.(type) {
+		case uint64:
+			return v
+		case int:
+			return uint64(v)
+		}
+		panic(fmt.Sprintf("VERIF-FATAL hook value %T", x))
+	}
+	base.VerifSetSink(func(ev map[string]any) { // called under the emitting goroutine's changeCache.lock
+		if ev["obj"] != obj {
+			return
+		}
+		switch ev["ev"] {
+		case "entry":
+			steps++
+			tw.Emit(g.snapshotL(vObj{"a": "Arrive", "seq": g.off(u(ev["seq"])), "end": 0, "kind": ev["kind"], "old": ev["old"], "sk": ev["sk"], "conc": true}, false))
+		case "range":
+			steps++
+			tw.Emit(g.snapshotL(vObj{"a": "Range", "seq": g.off(u(ev["seq"])), "end": g.off(u(ev["end"])), "kind": "unused", "old": ev["old"], "conc": true}, false))
+		}
+	})
 	shares := make([][]int, n)
 	for i := range b.Steps {
 		shares[i%n] = append(shares[i%n], i)
@@ -389,6 +424,10 @@ func vC08Concurrent(g *vC08Rig, b vC08Beh, tw *vTraceWriter) {
 	}
 	close(start)
 	wg.Wait()
+	base.VerifSetSink(nil)
+	if steps > 0 {
+		return
+	}
 	evs := []vObj{}
 	for _, st := range b.Steps {
 		evs = append(evs, vObj{"seq": st.Seq, "end": st.End, "kind": st.Kind, "old": st.Old})
